@@ -11,7 +11,7 @@ def main():
     try:
         for d in ("pynenc", "pynmon"):
             shutil.copytree(os.path.join("/repo", d), os.path.join(tmp, d), ignore=shutil.ignore_patterns("__pycache__"))
-        r = subprocess.run(["patch", "-p1", "-d", tmp, "-i", os.path.join(seed, "patch.diff")], capture_output=True, text=True)
+        r = subprocess.run(["git", "apply", "--include=pynenc/*", "--include=pynmon/*", os.path.join(seed, "patch.diff")], cwd=tmp, capture_output=True, text=True)
         if r.returncode != 0:
             print("PATCH-FAILED", r.stdout[-500:], r.stderr[-300:]); return 99
         out = {}
